@@ -22,6 +22,7 @@ def obligations(tier):
     for h in ('h_rounding', 'h_lround', 'h_frexp_ldexp', 'h_modf_logb', 'h_nextafter', 'h_fdim_minmax'):
         ob = Ob(h[2:], 'hmath', h, unwind=40, timeout=600, bound='all arguments', min_witnesses=1); ob.harness_unwind = 70; obs.append(ob)
     obs.append(Ob('annexf_special', 'hmath', 'h_special_values', unwind=40, timeout=600, bound='zeros, one, infinities, domain errors of every function'))
+    obs.append(Ob('pow_sign', 'hmath', 'h_pow_sign', unwind=40, timeout=600, backend='cadical', bound='all negative finite bases, all finite non-zero exponents', min_witnesses=2))
     for f in NANFUNCS:
         obs.append(Ob('annexf_nan/' + f, 'hmath', 'h_nan_one', defines=['FN=' + f, 'ODDFN=0'], unwind=40, timeout=300, bound='all NaN payloads'))
     if tier == 'thorough':
